@@ -1,7 +1,11 @@
 /- C01: Encode then Decode returns the same message, for every message type: `roundtrip` at the regenerated environment;
    its side conditions (Decode mirrors Encode statement by statement, union keys are earlier fields, prefix widths) are
    evaluated by the kernel on Gen. -/
-import FinProto.Obl.Side
+import FinProto.Obl.SFramesTop
+import FinProto.Obl.SKeys
+import FinProto.Obl.SMirror
+import FinProto.Obl.SNoOpaque
+import FinProto.Obl.SWidths
 import FinProto.Props.RoundTrip
 namespace FinProto.Obl
 open FinProto
